@@ -10,7 +10,7 @@ use crate::env::Place;
 use crate::fields::{field_values, subset_of, FIELD_NAMES, PATH_REWRITE_NEEDS};
 use crate::report::{clip, guard, Report};
 use crate::rng::{fnv, Rng};
-use crate::scen::{build_world, mode_name, observe, Tok, World, MODES};
+use crate::scen::{mode_name, observe, Tok, World, MODES};
 use crate::textgen;
 use crate::Ctx;
 
@@ -55,7 +55,16 @@ pub fn run(ctx: &Ctx, rep: &mut Report) {
         let mut rng = Rng::derive(ctx.seed, 0xC10, wi);
         rep.progress_idx(wi, "C10 world");
         let dopts = DictOpts { max_entries: 30, loose_compounds: true, ..DictOpts::default() };
-        let world: World = match guard(|| build_world(&mut rng, &dopts, None, wi % 3 == 0, Place::Owned)) {
+        // every sixth world has no fallback provider: an analysis may then fail for lack of candidates, which is one more kind
+        // of failed analysis that must leave the tokenizer usable
+        let no_fallback = wi % 6 == 5;
+        let world: World = match guard(|| crate::scen::build_world_tweak(&mut rng, &dopts, wi % 3 == 0, Place::Owned, |_r, p| {
+            if no_fallback {
+                p.no_fallback = true;
+                p.mecab = false;
+                p.regex = Some(("[a-z]+".to_string(), true, 32));
+            }
+        })) {
             Ok(Ok(w)) => w,
             Ok(Err(e)) => {
                 rep.count("worlds_rejected", 1);
@@ -289,6 +298,39 @@ pub fn run(ctx: &Ctx, rep: &mut Report) {
                         rep.violation("history_panic", &p.site, &format!("accessors panic on the long-lived list only: {}", p.msg), "", scen(""));
                         ok_history = false;
                         break;
+                    }
+                    _ => {}
+                }
+            }
+            // at the end the long-lived tokenizer is consumed the way the stateless API consumes a fresh one
+            if ok_history {
+                let probe = if rng.chance(1, 3) { String::new() } else { textgen::text_from_keys(&mut rng, &keys, 5) };
+                let Tok { tok: mut lt, .. } = live;
+                let a = guard(|| {
+                    lt.reset().push_str(&probe);
+                    lt.do_tokenize().map_err(|e| format!("{:?}", e))?;
+                    lt.into_morpheme_list().map_err(|e| format!("{:?}", e)).and_then(|l| snapshot_list(&l, bits))
+                });
+                let mut fresh = Tok::new(&world.dict, mode);
+                fresh.tok.set_subset(subset_of(bits));
+                let b = guard(|| fresh.run(&probe).map_err(|e| format!("{:?}", e)).and_then(|_| snapshot(&fresh, bits)));
+                rep.count("tokenizers_consumed_with_into_morpheme_list", 1);
+                let scen = || json!({"world_index": wi, "history_index": hi, "history": history, "probe": probe, "mode": mode_name(mode), "requested_bits": bits, "world": world.describe(true)});
+                match (a, b) {
+                    (Ok(Ok(x)), Ok(Ok(y))) => {
+                        if x != y {
+                            rep.violation("history_dependence", "into_morpheme_list", &format!("after the history the long-lived tokenizer gives {:?}, a fresh one {:?}", x.iter().take(4).collect::<Vec<_>>(), y.iter().take(4).collect::<Vec<_>>()), "", scen());
+                            ok_history = false;
+                        }
+                    }
+                    (Ok(Err(_)), Ok(Err(_))) => {}
+                    (Ok(Err(e)), Ok(Ok(_))) => {
+                        rep.violation("outcome_differs", "into_morpheme_list", &format!("after the history the long-lived tokenizer fails ({}), a fresh one analyses the probe", clip(&e, 120)), "", scen());
+                        ok_history = false;
+                    }
+                    (Err(p), Ok(_)) => {
+                        rep.violation("history_panic", &p.site, &format!("into_morpheme_list on the long-lived tokenizer panics: {}", p.msg), "", scen());
+                        ok_history = false;
                     }
                     _ => {}
                 }
